@@ -277,3 +277,43 @@ Theorem C04_senc_indent_code_insert_ws : forall o st mar mari,
     Ret (None, (sb ++ semit (SeqSpec.insert_ws ws its), i, c, p, m', t')).
 Proof. exact PureG31.senc_indent_code_insert_ws. Qed.
 Print Assumptions C04_senc_indent_code_insert_ws.
+
+(* ---- the glue between NewMapXmlSeq / NewMapFormattedXmlSeq and the sequence parser, translated from the current xmlseq.go
+   (GenProofs/PureG39.v): no side condition on the tokens; re stands for package regexp's ReplaceAll, applied to the pattern's
+   source text. *)
+From Mxj Require GenProofs.PureG39.
+
+Theorem C04_xml_seq_to_map_code_is_model : forall pf callskip o newdec usecd setcr st doc r,
+  PureG15.seq_view st o -> PureG.cast_view st o ->
+  fn_xmlSeqToMap usecd (PureG39.run_xmlSeqToMapParser pf callskip st) newdec setcr st doc r
+  = PureG5.of_res (PureG39.seq_decode_entries pf (PureG.skip_of st callskip) o r (PureG39.configured_decoder newdec usecd setcr st doc)).
+Proof. exact PureG39.xml_seq_to_map_code_is_model. Qed.
+Print Assumptions C04_xml_seq_to_map_code_is_model.
+
+Theorem C04_new_map_xml_seq_code_is_model : forall pf callskip o newdec usecd setcr st doc cast,
+  PureG15.seq_view st o -> PureG.cast_view st o ->
+  fn_NewMapXmlSeq (PureG39.run_xmlSeqToMap pf callskip newdec usecd setcr st) st doc cast
+  = PureG5.of_res (PureG39.seq_decode_entries pf (PureG.skip_of st callskip) o (PureG13.opt_flag cast)
+                     (PureG39.configured_decoder newdec usecd setcr st doc)).
+Proof. exact PureG39.new_map_xml_seq_code_is_model. Qed.
+Print Assumptions C04_new_map_xml_seq_code_is_model.
+
+Theorem C04_new_map_formatted_xml_seq_code : forall (re : str -> str -> str -> str) (xmlSeqToMap : str -> bool -> res entries) st doc cast,
+  fn_NewMapFormattedXmlSeq re xmlSeqToMap st doc cast
+  = PureG5.of_res (xmlSeqToMap (re (s">[\n\t\r ]*<") doc (s"><")) (PureG13.opt_flag cast)).
+Proof. exact PureG39.new_map_formatted_xml_seq_code. Qed.
+Print Assumptions C04_new_map_formatted_xml_seq_code.
+
+Theorem C04_new_map_formatted_xml_seq_code_is_model : forall pf callskip o re newdec usecd setcr st doc cast,
+  PureG15.seq_view st o -> PureG.cast_view st o ->
+  fn_NewMapFormattedXmlSeq re (PureG39.run_xmlSeqToMap pf callskip newdec usecd setcr st) st doc cast
+  = PureG5.of_res (PureG39.seq_decode_entries pf (PureG.skip_of st callskip) o (PureG13.opt_flag cast)
+              (PureG39.configured_decoder newdec usecd setcr st (re (s">[\n\t\r ]*<") doc (s"><")))).
+Proof. exact PureG39.new_map_formatted_xml_seq_code_is_model. Qed.
+Print Assumptions C04_new_map_formatted_xml_seq_code_is_model.
+
+Theorem C04_seq_decode_entries_is_seq_decode : forall pf skip o r p,
+  seq_decode pf skip o r (fst p) (snd p)
+  = match PureG39.seq_decode_entries pf skip o r p with Ok m => Ok (VMap m) | Err e => Err e | Panic => Panic end.
+Proof. exact PureG39.seq_decode_entries_value. Qed.
+Print Assumptions C04_seq_decode_entries_is_seq_decode.
